@@ -71,8 +71,13 @@ def quat_slices(system):
 def make_tpi(ts, s1, s2):
     from cardillo.interactions import TwoPointInteraction
 
+    kw = {}
+    if ts.get("xi1") is not None:
+        kw["xi1"] = float(ts["xi1"])
+    if ts.get("xi2") is not None:
+        kw["xi2"] = float(ts["xi2"])
     return TwoPointInteraction(s1, s2, B_r_CP1=np.array(ts.get("B1", [0, 0, 0]), dtype=float),
-                               B_r_CP2=np.array(ts.get("B2", [0, 0, 0]), dtype=float), name=ts.get("name", "tpi"))
+                               B_r_CP2=np.array(ts.get("B2", [0, 0, 0]), dtype=float), name=ts.get("name", "tpi"), **kw)
 
 
 def make_force_law(es, inter):
